@@ -17,7 +17,13 @@ Inductive case :=
 | CFlight (decl : list (name * N * V)) (n : name) (callers : list caller) (scripts : list (svc V)) (wins : list nat)
           (obs_done : list (N * N * V))            (* per caller, by index: class, instant, token *)
           (obs_log : list mark) (maxconc : N)
-          (after_secret after_polled after_cached : bool).
+          (after_secret after_polled after_cached : bool)
+| CLate (decl : list (name * N * V)) (n : name) (first second : option (N * V)) (held : bool)
+        (b_cls : N) (b_tok : V) (a_cls : N) (a_tok : V) (a_nreq : N) (served : V) (polled_ver : N).
+        (* an overtaken flight (F8): caller A is held between its unknown-name check and its flight; B (if
+           first <> None) completes a lookup answered `first`; A is released, its request is answered
+           `second`.  classes as for CPolicy; a_nreq = requests during A's release; served = token
+           Secret(n).Get() serves afterwards; polled_ver = the version the next poll asks about *)
 
 Definition init_store (allow : bool) (init : list (name * N * V)) : store V :=
   ST (fold_left (fun mm '(n, v, b) => SMap.upd n (Some (CE v b 0%Z true)) mm) init []) [] [] allow 0%Z.
@@ -72,8 +78,30 @@ Definition mark_beq (a b : mark) : bool :=
 
 Definition in_names (n : name) (l : list name) : bool := existsb (neqb n) l.
 
+Definition ver_of (s : store V) (n : name) : N := match entry s n with Some e => ver e | None => 0 end.
+
+Definition check_late decl n (first second : option (N * V)) (held : bool) b_cls b_tok a_cls a_tok a_nreq served polled_ver : bool :=
+  let s0 := init_store true decl in
+  held && negb (known s0 n) &&
+  (* B is an undisturbed caller: check and flight in one go, on a name that is unknown *)
+  let s1 := match first with
+            | Some (v, b) => fst (lookup_finish s0 n v b 0%Z)
+            | None => s0
+            end in
+  (match first with Some (v, b) => (b_cls =? 0) && (b_tok =? b) | None => true end) &&
+  (* A's flight: one request, then the locked part in whatever state the store is by now *)
+  match second with
+  | Some (v, b) =>
+      let s2 := fst (lookup_finish s1 n v b 0%Z) in
+      (a_cls =? 0) && (a_nreq =? 1) && (a_tok =? val_of s2 n) && (served =? val_of s2 n) && (polled_ver =? ver_of s2 n)
+      && in_names n (map fst (requests (snapshot s2 0%Z)))
+  | None => false
+  end.
+
 Definition check (c : case) : bool :=
   match c with
+  | CLate decl n first second held b_cls b_tok a_cls a_tok a_nreq served polled_ver =>
+      check_late decl n first second held b_cls b_tok a_cls a_tok a_nreq served polled_ver
   | CPolicy allow decl ep n svc_has cls nreq tok => check_policy allow decl ep n svc_has cls nreq tok
   | CFlight decl n callers scr wn obs_done obs_log maxconc a_secret a_polled a_cached =>
       match run n (fuel_for callers) (init callers scr wn (init_store true decl)) with
